@@ -33,11 +33,16 @@ fn is_literal(c: &AttrChar) -> bool {
 /// Sets the `is_quoting` flag of unquoted backslashes and the `is_quoted` flag
 /// of their following characters.
 pub fn apply_escapes(chars: &mut [AttrChar]) {
-    for j in 1..chars.len() {
-        let i = j - 1;
+    for i in 0..chars.len() {
         if chars[i].value == '\\' && !chars[i].is_quoting && !is_literal(&chars[i]) {
-            chars[i].is_quoting = true;
-            chars[j].is_quoted = true;
+            // The escaped character is the next one that is part of the
+            // pattern. Quoting characters (such as an empty pair of quotes)
+            // in between are not.
+            let next = chars[i + 1..].iter().position(|c| !c.is_quoting);
+            if let Some(offset) = next {
+                chars[i].is_quoting = true;
+                chars[i + 1 + offset].is_quoted = true;
+            }
         }
     }
 }
